@@ -239,6 +239,47 @@ fn eval_lib(gt: &str, container: Container, selected: bool, ctx: Ctx) -> Option<
     ))
 }
 
+/// A site at which several selected samples are skipped for different reasons; `order` picks which
+/// columns are missing and which multiallelic.
+fn eval_two_reasons(container: Container, order: usize, scratch: &Scratch) -> Option<Viol> {
+    let gts: [&str; 3] = [["./.", "1/2", "0/1"], ["1/2", "./.", "0/1"], ["0/1", "2/1", ".|."], [".|0", "2|2", "./."]][order];
+    let reasons: [Option<&str>; 3] = [[Some("missing"), Some("multiallelic"), None], [Some("multiallelic"), Some("missing"), None], [None, Some("multiallelic"), Some("missing")], [Some("missing"), Some("multiallelic"), Some("missing")]][order];
+    let mut cs = CallSet::new(3);
+    cs.records.push(Record { chrom: 0, pos: 3, alts: ALTS.to_vec(), gts: vec!["0/0".into(), "0|0".into(), "0/1".into()], decorated: false });
+    cs.records.push(Record { chrom: 1, pos: 7, alts: ALTS.to_vec(), gts: gts.iter().map(|g| g.to_string()).collect(), decorated: false });
+    cs.records.push(Record { chrom: 1, pos: 9, alts: ALTS.to_vec(), gts: vec!["1|1".into(), "0/0".into(), "0/0".into()], decorated: false });
+    let bytes = render(&cs, container, &Layout::Single);
+    let o = run_sfs(&["create", "-vv", "-s", "s0,s1,s2"], Stdin::Bytes(&bytes), scratch);
+    let stderr = o.stderr_str();
+    let mut problems: Vec<String> = Vec::new();
+    if !o.ok() {
+        problems.push(format!("expected success, got {} ({})", o.status_str(), stderr.trim()));
+    }
+    for (i, r) in reasons.iter().enumerate() {
+        let named: Vec<&str> = stderr.lines().filter(|l| l.contains(&format!("Skipping sample 's{i}' at site 'chr2:7'"))).collect();
+        match r {
+            Some(r) => {
+                if named.len() != 1 || !named[0].contains(&format!("Reason: '{r}'")) {
+                    problems.push(format!("sample s{i} ({}) is skipped as {r}, its trace lines are {named:?}", gts[i]));
+                }
+            }
+            None => {
+                if !named.is_empty() {
+                    problems.push(format!("sample s{i} ({}) is called, yet reported: {named:?}", gts[i]));
+                }
+            }
+        }
+    }
+    if problems.is_empty() {
+        return None;
+    }
+    Some((
+        format!("C08|cli|trace-reason-wrong|{}", container.name()),
+        format!("GTs {gts:?} at chr2:7 in the {} path: {}", container.name(), problems.join("; ")),
+        J::obj([("kind", J::s("c08-two-reasons")), ("container", J::s(container.name())), ("order", J::u(order))]),
+    ))
+}
+
 fn eval_cli(gt: &str, container: Container, selected: bool, scratch: &Scratch) -> Option<Viol> {
     eval_cli_with(gt, container, selected, "-vv", false, scratch)
 }
@@ -611,6 +652,28 @@ pub fn run(tier: Tier) -> i32 {
             extra: vec![],
         });
     }
+    // one site, several skipped samples, different reasons: every trace line carries the reason of
+    // the sample it names, whichever column comes first
+    {
+        let mut tj: Vec<(Container, usize)> = Vec::new();
+        for c in Container::all() {
+            for order in 0..4usize {
+                tj.push((c, order));
+            }
+        }
+        let res = par_map(tj.len(), |i| eval_two_reasons(tj[i].0, tj[i].1, &scratch));
+        for v in res.into_iter().flatten() {
+            rep.violation(v.0, v.1, v.2);
+        }
+        rep.part(Part {
+            name: "cli: several skipped samples at one site, each with its own reason".into(),
+            evaluations: tj.len() as u64,
+            nontrivial: tj.len() as u64,
+            note: "three selected samples of which two or three are skipped at one site, missing and multiallelic in every column order, in four containers at -vv: one trace line per skipped sample, naming that sample's own reason".into(),
+            exhaustive: true,
+            extra: vec![],
+        });
+    }
     rep.assumptions = vec![
         "a bare '.' GT (the VCF missing-field spelling / a haploid missing call) may be classified either as missing or as a ploidy error: the statement does not decide it (DESIGN section 5, F16)".into(),
         "BCF encoding written from the BCF2.2 specification (harness/src/gen.rs), validated against the htslib-written fixture record".into(),
@@ -619,6 +682,11 @@ pub fn run(tier: Tier) -> i32 {
 }
 
 pub fn replay(case: &J) -> Option<Vec<String>> {
+    if case.get("kind").and_then(|k| k.as_str()) == Some("c08-two-reasons") {
+        let scratch = Scratch::new("c08r");
+        let c = Container::all().into_iter().find(|c| Some(c.name()) == case.get("container").and_then(|x| x.as_str()))?;
+        return Some(eval_two_reasons(c, case.get("order")?.as_i64()? as usize, &scratch).into_iter().map(|(k, w, _)| format!("{k} :: {w}")).collect());
+    }
     if case.get("kind").and_then(|k| k.as_str()) == Some("c08-raw") {
         use sfs_core::input::genotype::Genotype;
         let raw: usize = case.get("raw")?.as_str()?.parse().ok()?;
